@@ -327,6 +327,12 @@ impl Space {
     fn index_live(&self) -> bool {
         self.built && self.muts.is_empty()
     }
+    /// the cached index is live AND passes the engine's guard for a query of this dimension
+    /// (non-empty, indexed vectors have the query's dimension): while live, the indexed vectors are
+    /// exactly `items`, and a successful build means they all have one dimension
+    fn index_consulted(&self, q_len: usize) -> bool {
+        self.index_live() && self.items.values().next().map_or(false, |(v, _)| v.len() == q_len)
+    }
     fn mutated(&mut self, tag: &'static str) {
         if self.built {
             self.muts.push(tag);
@@ -351,6 +357,8 @@ struct Runner {
     dflt: Space,
     named: BTreeMap<String, Space>,
     cfgs: BTreeMap<String, (Option<usize>, Metric)>,
+    /// engine calls the harness made on its own behalf during the last `exec` (as lines for the model)
+    extra_lines: Vec<String>,
 }
 
 fn verr(e: &VectorError) -> &'static str {
@@ -377,7 +385,7 @@ fn md_map(md: &Md) -> HashMap<String, TensorValue> {
 
 impl Runner {
     fn new() -> Runner {
-        Runner { eng: VectorEngine::new(), dflt: Space::default(), named: BTreeMap::new(), cfgs: BTreeMap::new() }
+        Runner { eng: VectorEngine::new(), dflt: Space::default(), named: BTreeMap::new(), cfgs: BTreeMap::new(), extra_lines: Vec::new() }
     }
     fn repr_of(&self, storage_key: &str) -> String {
         match self.eng.store().get(storage_key) {
@@ -491,6 +499,22 @@ impl Runner {
                 match self.eng.create_collection(c, cfg) {
                     Ok(()) => {
                         self.cfgs.insert(c.clone(), (*dim, *m));
+                        // The harness is the caller that supplied this collection's cached index, built
+                        // with the default (cosine) HNSW metric (see CBuild: only cosine collections are
+                        // indexed).  Declaring another metric makes that index the wrong one for the
+                        // collection, so its owner withdraws it, as `cache_hnsw_index`'s contract expects
+                        // (what the engine does when the caller does not is recorded by `observe_foreign_index`).
+                        if *m != Metric::Cos {
+                            if let Some(sp) = self.named.get_mut(c) {
+                                if sp.built {
+                                    self.eng.invalidate_hnsw_cache(c);
+                                    sp.built = false;
+                                    sp.muts.clear();
+                                    sp.index = None;
+                                    self.extra_lines.push(format!("inval {c}"));
+                                }
+                            }
+                        }
                         Obs::Plain("ok".into())
                     }
                     Err(e) => Obs::Plain(format!("err {}", verr(&e))),
@@ -630,7 +654,7 @@ impl Runner {
                 let cfg = filt_cfg(*strat, *os);
                 let res = conv(self.eng.search_similar_filtered(&f32s(q), *k, &f.cond(), cfg));
                 if let Ok(r) = &res {
-                    oracle(&format!("{}[{}]", op.tag(), strat.name()), r, q, *k, Metric::Cos, &self.dflt, Some(f), true, viol);
+                    oracle(&format!("{}[{}]", op.tag(), strat.name()), r, q, *k, Metric::Cos, &self.dflt, Some(f), *strat != Strat::Pre, viol);
                 }
                 Obs::Search { res, ann: None }
             }
@@ -651,7 +675,7 @@ impl Runner {
                 let empty = Space::default();
                 let sp = self.named.get(c).unwrap_or(&empty);
                 if let Ok(r) = &res {
-                    oracle(&format!("{}[{}]", op.tag(), strat.name()), r, q, *k, self.coll_metric(c), sp, Some(f), true, viol);
+                    oracle(&format!("{}[{}]", op.tag(), strat.name()), r, q, *k, self.coll_metric(c), sp, Some(f), *strat != Strat::Pre, viol);
                 }
                 Obs::Search { res, ann: None }
             }
@@ -689,7 +713,8 @@ fn ann_keys(sp: &Space, q: &[f32], k: usize) -> Option<Vec<String>> {
 
 /// The property, evaluated on the engine's own output against the harness's shadow of what is
 /// currently stored.  `may_use_index`: this entry point is allowed to answer from a cached
-/// index *while the index is live* (built and no mutation since); then recall is not claimed.
+/// index *while the index is live* (built and no mutation since) *and indexes vectors of the
+/// query's dimension*; then recall is not claimed.
 #[allow(clippy::too_many_arguments)]
 fn oracle(site: &str, res: &[(String, f32)], q: &[i64], k: usize, m: Metric, sp: &Space, filt: Option<&F>, may_use_index: bool, viol: &mut Vec<Viol>) {
     if q.is_empty() || k == 0 || nsq(q) == 0 {
@@ -736,10 +761,10 @@ fn oracle(site: &str, res: &[(String, f32)], q: &[i64], k: usize, m: Metric, sp:
             }
         }
     }
-    if may_use_index && sp.index_live() {
+    if may_use_index && sp.index_consulted(q.len()) {
         return;
     }
-    // exact top-k required
+    // exact top-k required (no index, or the index is not consulted for a query of this dimension)
     let mut cands: Vec<(i128, i128)> = sp
         .items
         .iter()
@@ -1207,13 +1232,19 @@ fn classify(ops: &[Op], at: usize, site: &str, kind: &str) -> String {
     if let Some(b) = last_build {
         if !matches!(ops[at], Op::SearchM { .. }) {
             if let Some(mu) = (b + 1..at).find(|i| ops[*i].is_mutation() && space_of(&ops[*i]) == sp) {
-                // confirm by experiment: with an explicit invalidation right after that mutation the
-                // violation must be gone (3 tries: tie order in the store is not deterministic)
-                let mut t: Vec<Op> = ops[..=mu].to_vec();
-                t.push(Op::Invalidate { c: sp.as_ref().and_then(|s| s.strip_prefix("c:").map(|x| x.to_string())) });
-                t.extend_from_slice(&ops[mu + 1..=at]);
-                let gone = (0..3).all(|_| !replay_kinds(&t).iter().any(|(i, _, k)| *i == t.len() - 1 && *k == kind));
-                if gone {
+                // Confirm by experiment before charging a mutation.  Tie order in the store differs from
+                // engine instance to engine instance, so a violation that depends on it (a post-filter
+                // miss when equal scores straddle the oversample cut) comes and goes by chance: every
+                // arm is replayed TRIES times.  Stale cache = the violation (a) reproduces as is,
+                // (b) is gone with an explicit invalidation right after that mutation, and (c) is gone
+                // when no index is ever built (it needs the cache at all).
+                const TRIES: usize = 8;
+                let count = |t: &[Op]| (0..TRIES).filter(|_| replay_kinds(t).iter().any(|(i, _, k)| *i == t.len() - 1 && *k == kind)).count();
+                let mut with_inval: Vec<Op> = ops[..=mu].to_vec();
+                with_inval.push(Op::Invalidate { c: sp.as_ref().and_then(|s| s.strip_prefix("c:").map(|x| x.to_string())) });
+                with_inval.extend_from_slice(&ops[mu + 1..=at]);
+                let no_builds: Vec<Op> = ops[..=at].iter().filter(|o| !(matches!(o, Op::Build { .. } | Op::CBuild { .. }) && space_of(o) == sp)).cloned().collect();
+                if count(&with_inval) == 0 && count(&no_builds) == 0 && count(&ops[..=at]) >= TRIES - 2 {
                     return format!("vector_engine.{}/stale_hnsw_cache", ops[mu].tag());
                 }
             }
@@ -1253,6 +1284,7 @@ fn run_seq(cx: &mut Ctx, stream: &str, ops: &[Op]) {
             Op::CSearch { c, .. } | Op::CSearchF { c, .. } => r.named.get(c).map_or(false, |s| s.index_live()),
             _ => false,
         };
+        r.extra_lines.clear();
         let (obs, viol) = r.exec(op);
         cx.rep.hit(&format!("op.{}", op.tag()));
         let line = match (&obs, op) {
@@ -1305,6 +1337,11 @@ fn run_seq(cx: &mut Ctx, stream: &str, ops: &[Op]) {
                 let sname = format!("{stream}.{}", op.tag());
                 cx.rep.compare(&sname, || json!({"ops": ops_json(&ops[..=i]), "impl_result": format!("{res:?}"), "model_raw": ma.raw}), &a, &b);
             }
+        }
+        for l in std::mem::take(&mut r.extra_lines) {
+            cx.rep.hit("op.invalidate_hnsw_cache(index owner, metric reconfigured)");
+            let a = cx.m.ask(&l);
+            cx.rep.compare(&format!("{stream}.invalidate_hnsw_cache"), || json!({"ops": ops_json(&ops[..=i]), "extra": l}), "ok", &a);
         }
         if first_violation.is_none() {
             if let Some(v) = viol.into_iter().next() {
@@ -1457,6 +1494,37 @@ fn directed() -> Vec<(&'static str, Vec<Op>)> {
     ]
 }
 
+// ------------------------------------------------------------------ outside the quantifier
+
+/// What the engine does with a caller-supplied index that does not fit the collection: a cosine
+/// index cached for a collection that is then configured with the Euclidean metric keeps being
+/// consulted, and its cosine scores are reported.  `cache_hnsw_index` takes whatever index the
+/// caller hands it; keeping it consistent with the collection is the caller's side of the
+/// contract, so this is recorded as an observation, not judged.
+fn observe_foreign_index(rep: &mut Report) {
+    let eng = VectorEngine::new();
+    let vs: [(&str, [f32; 2]); 2] = [("near", [1.0, 1.0]), ("far", [60.0, 0.0])];
+    for (k, v) in vs {
+        eng.store_in_collection("obs", k, v.to_vec()).ok();
+    }
+    let keys = eng.list_collection_keys("obs");
+    let idx = HNSWIndex::with_config(HNSWConfig::default());
+    for k in &keys {
+        idx.insert(eng.get_from_collection("obs", k).unwrap_or_default());
+    }
+    eng.cache_hnsw_index("obs", Arc::new(idx), keys);
+    let created = eng.create_collection("obs", VectorCollectionConfig::default().with_metric(DistanceMetric::Euclidean)).is_ok();
+    let with_index = conv(eng.search_in_collection("obs", &[2.0, 0.0], 2));
+    eng.invalidate_hnsw_cache("obs");
+    let without = conv(eng.search_in_collection("obs", &[2.0, 0.0], 2));
+    rep.observe(json!({
+        "what": "caller-supplied cosine HNSW index cached for collection 'obs', then create_collection('obs', Euclidean): search_in_collection keeps answering from the cosine index until the caller invalidates it (the engine does not compare the index's metric with the collection's)",
+        "create_collection_ok": created,
+        "search_with_foreign_index": format!("{with_index:?}"),
+        "search_after_invalidate": format!("{without:?}"),
+    }));
+}
+
 // ------------------------------------------------------------------ bit-pattern round trip
 
 fn bits_stream(rep: &mut Report, m: &mut Model, root: &Rng, scale: u64) {
@@ -1556,6 +1624,7 @@ fn main() {
         }
     }
     bits_stream(&mut rep, &mut m, &root, scale);
+    observe_foreign_index(&mut rep);
 
     rep.expected_branches = ["model.ranked", "model.index", "model.ann", "model.zero", "model.err", "repr.dense", "repr.sparse", "err.dim_mismatch", "err.not_found", "err.empty_vector", "err.invalid_top_k", "err.coll_exists", "err.coll_not_found"]
         .iter()
@@ -1563,7 +1632,7 @@ fn main() {
         .collect();
     rep.note("scores: compared bit-for-bit against a recomputation of the engine's own f32 operation order from exact integers; the 1e-5 fallback (counted in distribution as score.within_1e-5(not-proof)) is an oracle, not a proof");
     rep.note("ties: the store's scan order is a HashSet iteration order, so equal scores are compared as tie classes (cosine: scores within 1e-6 relative are merged into one class, counted as rank.cosine_near_tie_merged)");
-    rep.note("collection names / keys are [a-z0-9]+; the index over a named collection is built by the harness with the default (cosine) HNSW metric and only for cosine collections");
+    rep.note("collection names / keys are [a-z0-9]+; the index over a named collection is built by the harness with the default (cosine) HNSW metric and only for cosine collections; when a later create_collection gives such a collection another metric the harness, as the owner of that index, invalidates it (sent to the model as the `invalidate_hnsw_cache` operation)");
     rep.note("not modelled: HNSW graph construction and recall (only the contract of its output is used), SIMD rounding on non-integer data, IVF indexes, entity embeddings, persistence");
     rep.write(&args.out);
 }
